@@ -10,18 +10,31 @@ EXTENDS Naturals, FiniteSets, Sequences, TLC
 
 CONSTANTS Procs,        \* process names; "r" is the root
           MaxT,         \* trackers that can ever be started
-          MaxOps, MaxRes
+          MaxOps, MaxRes,
+          Confs         \* configurations explored: records [method, imp, strict] (see conf below)
 
 VARIABLES parent, alive, trk, tAlive, tStarted, holders, swept,
           res,          \* resources: res[i] = [owner, tracker, kind ("file" | "sem"), exists, registered]
+          conf,         \* configuration of the tree, fixed at Init:
+                        \*   method: start method, "loky" | "loky_init_main" (the child re-imports the parent's main module)
+                        \*   imp:    the main module performs a tracked operation (creates a lock) when it is imported
+                        \*   strict: the interpreters run with warnings turned into errors (-W error); no transition depends on it
           last, nops
-vars == <<parent, alive, trk, tAlive, tStarted, holders, swept, res, last, nops>>
+vars == <<parent, alive, trk, tAlive, tStarted, holders, swept, res, conf, last, nops>>
+
+AllConfs == [method : {"loky", "loky_init_main"}, imp : BOOLEAN, strict : BOOLEAN]
+ImpLock(p, t) == [owner |-> p, tracker |-> t, kind |-> "sem", exists |-> TRUE, registered |-> TRUE]
 
 Init == /\ parent \in {f \in [Procs \ {"r"} -> Procs] : \A p \in DOMAIN f : f[p] # p /\ (f[p] = "r" \/ f[f[p]] = "r")}
         /\ alive = [p \in Procs |-> IF p = "r" THEN "alive" ELSE "unborn"]
-        /\ trk = [p \in Procs |-> 0] /\ tAlive = [t \in 1..MaxT |-> FALSE] /\ tStarted = 0
-        /\ holders = [t \in 1..MaxT |-> {}] /\ swept = [t \in 1..MaxT |-> FALSE]
-        /\ res = <<>> /\ last = <<"init">> /\ nops = 0
+        /\ conf \in Confs
+        /\ swept = [t \in 1..MaxT |-> FALSE] /\ last = <<"init">> /\ nops = 0
+        \* the root's main module is imported before anything else: with conf.imp its lock starts tracker 1
+        /\ IF conf.imp
+           THEN /\ trk = [p \in Procs |-> IF p = "r" THEN 1 ELSE 0] /\ tAlive = [t \in 1..MaxT |-> t = 1] /\ tStarted = 1
+                /\ holders = [t \in 1..MaxT |-> IF t = 1 THEN {"r"} ELSE {}] /\ res = <<ImpLock("r", 1)>>
+           ELSE /\ trk = [p \in Procs |-> 0] /\ tAlive = [t \in 1..MaxT |-> FALSE] /\ tStarted = 0
+                /\ holders = [t \in 1..MaxT |-> {}] /\ res = <<>>
 
 Tick == nops < MaxOps /\ nops' = nops + 1
 \* the tracker process p talks to after making sure one is running (ensure_running): a new one if none or dead
@@ -41,12 +54,15 @@ Spawn(p, c) ==
      /\ tStarted' = IF NeedNew(p) THEN tStarted + 1 ELSE tStarted
      /\ tAlive' = [tAlive EXCEPT ![t] = TRUE]
      /\ holders' = [holders EXCEPT ![t] = @ \cup {p, c}]
+     \* loky_init_main: the child imports the main module once the tracker handle it was given is installed, so the lock
+     \* created by that import is registered with the tree's tracker
+     /\ res' = IF conf.method = "loky_init_main" /\ conf.imp THEN Append(res, ImpLock(c, t)) ELSE res
   /\ alive' = [alive EXCEPT ![c] = "alive"]
-  /\ last' = <<"spawn", p, c>> /\ UNCHANGED <<parent, swept, res>>
+  /\ last' = <<"spawn", p, c>> /\ UNCHANGED <<parent, swept, conf>>
 
 \* a tracked operation: register a temporary file (kind "file") or create a named semaphore (kind "sem")
 Track(p, kind) ==
-  /\ Tick /\ alive[p] = "alive" /\ Len(res) < MaxRes
+  /\ Tick /\ alive[p] = "alive" /\ Len(res) < MaxRes + (IF conf.imp THEN 1 ELSE 0)
   /\ (NeedNew(p) => tStarted < MaxT)
   /\ LET t == Ensure(p) IN
      /\ trk' = [trk EXCEPT ![p] = t]
@@ -54,7 +70,7 @@ Track(p, kind) ==
      /\ tAlive' = [tAlive EXCEPT ![t] = TRUE]
      /\ holders' = [holders EXCEPT ![t] = @ \cup {p}]
      /\ res' = Append(res, [owner |-> p, tracker |-> t, kind |-> kind, exists |-> TRUE, registered |-> TRUE])
-  /\ last' = <<"track", p, kind>> /\ UNCHANGED <<parent, alive, swept>>
+  /\ last' = <<"track", p, kind>> /\ UNCHANGED <<parent, alive, swept, conf>>
 
 \* the owning object is collected in its process: the semaphore is unlinked, then unregistered -- a tracked operation,
 \* which (re)starts a tracker for that process if its tracker is dead
@@ -68,7 +84,7 @@ Collect(i) ==
         /\ tAlive' = [tAlive EXCEPT ![t] = TRUE]
         /\ holders' = [holders EXCEPT ![t] = @ \cup {p}]
   /\ res' = [res EXCEPT ![i] = [@ EXCEPT !.exists = FALSE, !.registered = FALSE]]
-  /\ last' = <<"collect", i>> /\ UNCHANGED <<parent, alive, swept>>
+  /\ last' = <<"collect", i>> /\ UNCHANGED <<parent, alive, swept, conf>>
 
 \* a process ends: "exit" runs finalizers (its own semaphores are unlinked), "kill" does not
 Die(p, how) ==
@@ -87,17 +103,17 @@ Die(p, how) ==
         /\ tStarted' = IF restart THEN tStarted + 1 ELSE tStarted
         /\ tAlive' = IF restart THEN [tAlive EXCEPT ![tStarted + 1] = TRUE] ELSE tAlive
         /\ swept' = [t \in 1..MaxT |-> swept[t] \/ (h[t] = {} /\ tAlive[t] /\ holders[t] # {}) \/ (restart /\ t = tStarted + 1)]
-  /\ last' = <<"die", p, how>> /\ UNCHANGED <<parent, trk>>
+  /\ last' = <<"die", p, how>> /\ UNCHANGED <<parent, trk, conf>>
 
 SignalTracker(t, sig) == /\ Tick /\ tAlive[t] /\ last' = <<"signal", t, sig>>
-                         /\ UNCHANGED <<parent, alive, trk, tAlive, tStarted, holders, swept, res>>
+                         /\ UNCHANGED <<parent, alive, trk, tAlive, tStarted, holders, swept, res, conf>>
 KillTracker(t) == /\ Tick /\ tAlive[t] /\ ~swept[t] /\ holders[t] # {}
                   /\ tAlive' = [tAlive EXCEPT ![t] = FALSE] /\ last' = <<"killtracker", t>>
-                  /\ UNCHANGED <<parent, alive, trk, tStarted, holders, swept, res>>
+                  /\ UNCHANGED <<parent, alive, trk, tStarted, holders, swept, res, conf>>
 
 Next == \/ \E p, c \in Procs : Spawn(p, c)
         \/ \E p \in Procs, k \in {"file", "sem"} : Track(p, k)
-        \/ \E i \in 1..MaxRes : Collect(i)
+        \/ \E i \in 1..(MaxRes + Cardinality(Procs)) : Collect(i)
         \/ \E p \in Procs, how \in {"exit", "kill"} : Die(p, how)
         \/ \E t \in 1..MaxT : KillTracker(t) \/ (\E s \in {"INT", "TERM"} : SignalTracker(t, s))
 Spec == Init /\ [][Next]_vars
@@ -105,6 +121,8 @@ Spec == Init /\ [][Next]_vars
 -----------------------------------------------------------------------------
 NoKill == \A t \in 1..MaxT : t <= tStarted => (tAlive[t] \/ swept[t] \/ holders[t] = {})
 \* C12: while no tracker was killed, every process of the tree reports to the single tracker started first
+\* every import-time lock of a child is registered with the tracker its creator uses (not with a private one)
+ImportsShareTracker == \A i \in 1..Len(res) : res[i].tracker \in 1..tStarted
 SingleTracker == (tStarted >= 1 /\ tAlive[1] /\ tStarted = 1) => \A p \in Procs : trk[p] \in {0, 1}
 OneTrackerUnlessKilled == (\A t \in 1..MaxT : t <= tStarted => tAlive[t] \/ swept[t]) => tStarted <= 1
 \* the end-of-life cleanup happens only after the last process holding the tracker's pipe is gone
